@@ -94,4 +94,28 @@ PrintDatum(v, po) ==
          (IF po.vec = "octo" THEN <<HASH, LP>> ELSE <<LB>>)
          \o Joined([i \in DOMAIN v.e |-> PrintDatum(v.e[i], po)])
          \o (IF po.vec = "octo" THEN <<RP>> ELSE <<RB>>)
+
+(***************************************************************************)
+(* The same text with the trivia string tr at every token boundary inside  *)
+(* the datum (after an opening delimiter, between elements, around the     *)
+(* pair dot, before the closing delimiter) - C12: inserting trivia between *)
+(* tokens never changes the value.  Atoms are single tokens; a byte vector *)
+(* is spaced inside its parentheses (not the unibyte-string rendering).    *)
+(***************************************************************************)
+RECURSIVE PrintSpaced(_, _, _), SpacedTail(_, _, _), JoinTr(_, _)
+JoinTr(ts, tr) == IF ts = <<>> THEN <<>> ELSE IF Len(ts) = 1 THEN ts[1] ELSE ts[1] \o tr \o JoinTr(Tail(ts), tr)
+SpacedTail(v, po, tr) ==
+  CASE v.k = "null" -> <<>>
+    [] v.k = "cons" -> tr \o PrintSpaced(v.car, po, tr) \o SpacedTail(v.cdr, po, tr)
+    [] OTHER -> tr \o <<DOT>> \o tr \o PrintSpaced(v, po, tr)
+PrintSpaced(v, po, tr) ==
+  CASE v.k = "cons" -> <<LP>> \o tr \o PrintSpaced(v.car, po, tr) \o SpacedTail(v.cdr, po, tr) \o tr \o <<RP>>
+    [] v.k = "vec" ->
+         (IF po.vec = "octo" THEN <<HASH, LP>> ELSE <<LB>>) \o tr
+         \o JoinTr([i \in DOMAIN v.e |-> PrintSpaced(v.e[i], po, tr)], tr) \o tr
+         \o (IF po.vec = "octo" THEN <<RP>> ELSE <<RB>>)
+    [] v.k = "bytes" /\ po.bytes # "elisp" ->
+         (IF po.bytes = "r6rs" THEN <<HASH, 118, 117, 56, LP>> ELSE <<HASH, 117, 56, LP>>) \o tr
+         \o JoinTr([i \in DOMAIN v.bv |-> IntText(FALSE, v.bv[i])], tr) \o tr \o <<RP>>
+    [] OTHER -> PrintDatum(v, po)
 =============================================================================
